@@ -34,13 +34,20 @@ def body(c):
     pfamily.validate(c, t2, m2, "C04", label="L2")
     c.extra["l2_scenarios"] = len(S2); c.extra["l2_executions"] = len(t2)
     c.extra["l2_not_finished"] = sum(1 for m in m2 if m["status"] != "finished")
+    base3 = common.scratch("c04_l3")
+    t3, m3 = pfamily.explore_l3(pscen.l3("C04", c.quick), base3)
+    import shutil; shutil.rmtree(base3, ignore_errors=True)
+    pfamily.account(c, t3, m3)
+    pfamily.validate(c, t3, m3, "C04", label="L3")
+    c.extra["l3_runs"] = len(t3)
     c.extra["scenarios"] = len(S)
     c.rule = ("executions of the real joblib.Parallel under the single-thread controlled backend (L1): stateless DFS / seeded "
               "random walks over completion order x placement of each completion callback relative to the caller's critical "
               "sections and polls x consumer decisions; non-trivial = distinct (configuration, schedule) with at least one "
               "completion delivered at a non-default point")
     c.rule += ("; L2: seeded schedules of real threads (caller + serial or concurrent callback threads) under a hand-off scheduler "
-               "with yield points at lock acquire/release, inside the input iterator, in submit, at polls")
+               "with yield points at lock acquire/release, inside the input iterator, in submit, at polls; L3: the built-in threading / loky / "
+               "multiprocessing backends with gate files opened in a scripted completion order, events totally ordered by O_APPEND writes to one log")
     c.assumptions += ["L1: callbacks are atomic w.r.t. the caller; L2: pre-emption only at the listed yield points",
                       "backend behaves like the documented extension API (ControlledBackend)"]
 
